@@ -44,7 +44,7 @@ func compatible(items []Item) bool {
 			collide = it.Step.ID
 		}
 		if hasTag(it.Step, "builtin") || it.Step.ID == "v.append1" || it.Step.ID == "v.appendN" || it.Step.ID == "a.slt" ||
-			it.Step.ID == "m.del" || it.Step.ID == "v.reslice" || it.Step.ID == "v.copyB" || it.Step.ID == "c.variadic" {
+			it.Step.ID == "m.del" || it.Step.ID == "v.reslice" || it.Step.ID == "v.copyB" || it.Step.ID == "c.variadic" || it.Step.ID == "c.tupBothVariadic" {
 			builtin = true
 		}
 	}
